@@ -78,6 +78,11 @@ def generate(tier, seed):
                     c['tunit'], c['runit'] = un, rng.choice(['AU', 'AU', 'table'])
                 else:
                     c['sunit'] = un
+                    if rng.random() < 0.5:
+                        # ... and the request a single-precision quantity in that unit too (every requested radius is a single-precision
+                        # number of it; the tabulated ones among them are exactly the tabulated values)
+                        c['runit'], c['rdtype32'] = un, True
+                        c['req'] = [float(np.float32(x / LEN[un])) * LEN[un] for x in c['req']]
                 aps, lo, hi = new, new[0], new[-1]
         if kind in ('sed', 'var'):
             su = rng.choice(['AU', 'AU', 'pc', 'cm'])            # unit in which the SED stores its apertures
@@ -93,6 +98,9 @@ def generate(tier, seed):
             c['fap'] = [rng.choice([rng.dyadic(lo, hi, 12) if nap > 1 else lo, rng.choice(aps), hi * 3.0]) for _ in fw]
             if below:
                 c['fap'][0] = lo * 0.5
+            if c.get('rdtype32'):
+                import numpy as np
+                c['fap'] = [float(np.float32(x / LEN[c['runit']])) * LEN[c['runit']] for x in c['fap']]
             if k % 16 == 3:       # whole-number radii handed over as an integer array (bare numbers are AU)
                 c['fap'] = [float(math.ceil(a)) for a in c['fap']]
                 c['fap_int'] = True
@@ -170,6 +178,8 @@ def impl(case):
         else:
             ru = u.Unit(case['runit'])
             req = (np.array(case['req']) / LEN[case['runit']]) * ru
+            if case.get('rdtype32'):
+                req = req.astype(np.float32)
         r = s.interpolate(req)
         r = r.value if hasattr(r, 'value') else r
         return dict(flux=[[float(x) for x in row] for row in np.asarray(r)])     # (n_wav, n_requests)
@@ -179,6 +189,8 @@ def impl(case):
         fa = fa.astype(int)
     elif case['runit'] != 'bare':       # the radii handed over as a quantity, in AU or another length unit
         fa = (fa / LEN[case['runit']]) * u.Unit(case['runit'])
+        if case.get('rdtype32'):
+            fa = fa.astype(np.float32)
     r = s.interpolate_variable(fw, fa)
     r = r.value if hasattr(r, 'value') else r
     return dict(flux=[float(x) for x in np.asarray(r)])
